@@ -650,7 +650,15 @@ def _elementwise2(a, b, op):
 def _probe(a):
     """a representative element term, used only to learn the result kind"""
     idx = [z3.Int("probe!%d" % k) for k in range(a.ndim)]
-    return a.snapshot()(*idx)
+    try:
+        return a.snapshot()(*idx)
+    except OutOfSubset:
+        # an array of concrete python values (literal string labels) cannot be read at a symbolic position: its first
+        # element is as representative as any
+        cs = [conc(s_) for s_ in a._shape]
+        if builtins.all(c is not None and c > 0 for c in cs):
+            return a.snapshot()(*[0] * a.ndim)
+        raise
 
 
 def _elem_of_scalar(v):
